@@ -775,7 +775,9 @@ func permPart(nmax, alphaBits int) {
 	for ji, j := range jobs {
 		w := newPermWorker(j, A)
 		w.rg.load(nil)
-		w.call()
+		if guarded(func() { w.call() }) {
+			w.report(nil, fmt.Sprintf("no-return-on-zero-continuation: still reading after %d all-zero attempts", maxZeroReads))
+		}
 		results[ji].L0 = w.rg.tp.want
 		for i := range results[ji].counts {
 			results[ji].counts[i] = map[uint32]uint32{}
@@ -962,8 +964,43 @@ func argsPart() {
 
 // ---------------------------------------------------------------- S: equal seeds, equal outputs (real ChaCha20 core)
 
+// proxy forwards to the real ChaCha20 core and only counts: a single library call that pulls
+// more than maxRealReads times from the core is cut off (a sampler spinning without progress
+// would otherwise hang the check; for a working rejection sampler the bound is never reached:
+// every attempt succeeds with probability > 1/2 and the seeds are fixed).
+type proxy struct {
+	inner interface{ Read([]byte) }
+	reads int
+}
+
+const maxRealReads = 100000
+
+func (p *proxy) Read(b []byte) {
+	p.reads++
+	if p.reads > maxRealReads {
+		panic(livelock{})
+	}
+	p.inner.Read(b)
+}
+
+func realWithProxy(seed, cust []byte) (random.Rand, *proxy, error) {
+	p, err := random.NewChacha20PRG(seed, cust)
+	if err != nil {
+		return nil, nil, err
+	}
+	f := reflect.ValueOf(p).Elem().FieldByName("genericPRG").FieldByName("randCore")
+	slot := reflect.NewAt(f.Type(), unsafe.Pointer(f.UnsafeAddr())).Elem()
+	inner, ok := slot.Interface().(interface{ Read([]byte) })
+	if !ok {
+		run.Fatal("randCore does not hold a reader")
+	}
+	px := &proxy{inner: inner}
+	slot.Set(reflect.ValueOf(px))
+	return p, px, nil
+}
+
 func seedsPart() {
-	mk := func(si, ci int) (random.Rand, error) {
+	mk := func(si, ci int) (random.Rand, *proxy, error) {
 		seed := make([]byte, random.Chacha20SeedLen)
 		for i := range seed {
 			seed[i] = byte(i*si*37 + si + int(run.Seed))
@@ -972,43 +1009,70 @@ func seedsPart() {
 		if ci > 0 {
 			cust = []byte("verif-c15-xx")[:ci]
 		}
-		return random.NewChacha20PRG(seed, cust)
+		return realWithProxy(seed, cust)
 	}
-	script := func(p random.Rand) string {
+	// script returns the transcript of a fixed call sequence; hung names the call that was cut off
+	script := func(p random.Rand, px *proxy) (out string, hung string) {
 		var sb strings.Builder
-		for _, n := range []uint64{1, 2, 3, 5, 255, 256, 257, 65537, 1 << 32, 1<<63 + 1, ^uint64(0)} {
-			fmt.Fprintf(&sb, "%d,", p.UintN(n))
+		do := func(name string, f func()) bool {
+			px.reads = 0
+			if guarded(f) {
+				hung = name
+				return false
+			}
+			return true
+		}
+		for _, n := range []uint64{1, 2, 3, 5, 255, 256, 257, 65537, 1 << 32, 1<<63 + 1, ^uint64(0), 1, 256, 65536} {
+			if !do(fmt.Sprintf("UintN(%d)", n), func() { fmt.Fprintf(&sb, "%d,", p.UintN(n)) }) {
+				return sb.String(), hung
+			}
 		}
 		for n := 0; n <= 8; n++ {
-			pm, _ := p.Permutation(n)
-			fmt.Fprintf(&sb, "%v", pm)
-			for m := 0; m <= n; m += 3 {
-				sp, _ := p.SubPermutation(n, m)
-				fmt.Fprintf(&sb, "%v", sp)
-				var sw []int
-				_ = p.Samples(n, m, func(i, j int) { sw = append(sw, i, j) })
-				fmt.Fprintf(&sb, "%v", sw)
+			if !do(fmt.Sprintf("Permutation(%d)", n), func() { pm, _ := p.Permutation(n); fmt.Fprintf(&sb, "%v", pm) }) {
+				return sb.String(), hung
 			}
-			var sw []int
-			_ = p.Shuffle(n, func(i, j int) { sw = append(sw, i, j) })
-			fmt.Fprintf(&sb, "%v", sw)
+			for m := 0; m <= n; m += 3 {
+				if !do(fmt.Sprintf("SubPermutation(%d,%d)", n, m), func() { sp, _ := p.SubPermutation(n, m); fmt.Fprintf(&sb, "%v", sp) }) {
+					return sb.String(), hung
+				}
+				if !do(fmt.Sprintf("Samples(%d,%d)", n, m), func() {
+					var sw []int
+					_ = p.Samples(n, m, func(i, j int) { sw = append(sw, i, j) })
+					fmt.Fprintf(&sb, "%v", sw)
+				}) {
+					return sb.String(), hung
+				}
+			}
+			if !do(fmt.Sprintf("Shuffle(%d)", n), func() {
+				var sw []int
+				_ = p.Shuffle(n, func(i, j int) { sw = append(sw, i, j) })
+				fmt.Fprintf(&sb, "%v", sw)
+			}) {
+				return sb.String(), hung
+			}
 		}
 		b := make([]byte, 9)
 		p.Read(b)
 		fmt.Fprintf(&sb, "%x", b)
-		return sb.String()
+		return sb.String(), ""
 	}
 	outs := map[string]bool{}
 	cnt := 0
 	for si := 0; si < 4; si++ {
 		for _, ci := range []int{0, 1, 12} {
-			a, err1 := mk(si, ci)
-			b, err2 := mk(si, ci)
+			a, pa, err1 := mk(si, ci)
+			b, pb, err2 := mk(si, ci)
 			if err1 != nil || err2 != nil {
 				run.Fatal("NewChacha20PRG: %v %v", err1, err2)
 			}
-			sa, sb := script(a), script(b)
+			sa, ha := script(a, pa)
+			sb, hb := script(b, pb)
 			cnt++
+			if ha != "" || hb != "" {
+				viol("seeds:call-does-not-return", fmt.Sprintf("generator with seed #%d customizer length %d: %s%s pulled more than %d times from the ChaCha20 core without returning", si, ci, ha, hb, maxRealReads),
+					replay{Kind: "seeds", NInt: si, M: ci, Got: sa, Note: ha + hb})
+				continue
+			}
 			if sa != sb {
 				viol("seeds:equal-seeds-differ", fmt.Sprintf("two generators with seed #%d customizer length %d disagree on the same call script", si, ci),
 					replay{Kind: "seeds", NInt: si, M: ci, Got: sa, Want: sb})
